@@ -2,7 +2,7 @@ SPECIFICATION Spec
 CONSTANTS
   Pre = {"none", "pi", "cmt", "doctype", "empty", "cempty", "bang"}
   Open = {"oa", "oattr", "ons", "osp", "sc", "scattr", "scsp"}
-  Content = {"none", "txt", "cdata", "nested", "ccmt", "opencdata"}
+  Content = {"none", "txt", "cdata", "nested", "selfnested", "ccmt", "opencdata"}
   Close = {"ca", "cns", "cb", "none"}
   Post = {"none", "sp", "elem2", "stray", "lt", "ltbang"}
 INVARIANTS BalancedWhenMatched StrayGoesNegative CutIsProperPrefix
